@@ -824,3 +824,145 @@ Section Run.
     - exists f0. split; [left; reflexivity|exact Hp].
   Qed.
 End Run.
+
+(* ================================= Part 3: the admissibility monitor is sound *)
+Lemma nodup_b_sound l : nodup_b l = true -> NoDup l.
+Proof.
+  induction l as [|x l IH]; cbn; intros H; [constructor|].
+  apply andb_true_iff in H. destruct H as [H1 H2]. constructor; [|apply IH; exact H2].
+  intros Hin. apply negb_true_iff in H1.
+  assert (existsb (Nat.eqb x) l = true) by (apply existsb_exists; exists x; split; [exact Hin|apply Nat.eqb_refl]).
+  congruence.
+Qed.
+
+Lemma all_pairs_b_sound {A} (f : A -> A -> bool) l : all_pairs_b f l = true -> ForallOrdPairs (fun a b => f a b = true) l.
+Proof.
+  induction l as [|x l IH]; cbn; intros H; [constructor|].
+  apply andb_true_iff in H. destruct H as [H1 H2]. constructor; [|apply IH; exact H2].
+  rewrite forallb_forall in H1. rewrite Forall_forall. exact H1.
+Qed.
+
+Lemma fop_impl {A} (R1 R2 : A -> A -> Prop) l :
+  (forall a b, R1 a b -> R2 a b) -> ForallOrdPairs R1 l -> ForallOrdPairs R2 l.
+Proof.
+  intros Hi H. induction H as [|a l Ha _ IH]; constructor; [|exact IH].
+  rewrite Forall_forall in *. intros b Hb. apply Hi. apply Ha. exact Hb.
+Qed.
+
+Lemma outside_b_sound sh r : forall a, outside_b sh r a = true -> off_margin sh r a.
+Proof.
+  unfold off_margin. induction sh as [|n sh IH]; intros [|x a] H; cbn in H; try discriminate; [constructor|].
+  apply andb_true_iff in H. destruct H as [H1 H2]. apply andb_true_iff in H1. destruct H1 as [H0 H1].
+  constructor; [lia|apply IH; exact H2].
+Qed.
+
+Lemma existsb_false {A} (f : A -> bool) l : existsb f l = false -> forall x, In x l -> f x = false.
+Proof.
+  intros H x Hx. destruct (f x) eqn:E; [|reflexivity].
+  assert (existsb f l = true) by (apply existsb_exists; exists x; auto). congruence.
+Qed.
+
+(* what the monitor establishes for one output frame of find_link, given the
+   preceding output frames (most recent first) *)
+Definition frame_admissible (mp : mparams) (prev_rev : list (list feat)) (fr : list feat) : Prop :=
+  (* labels unique *)
+  NoDup (map f_lab fr) /\
+  (* every two features at least separation apart *)
+  ForallOrdPairs (fun a b => far (m_k mp) (m_sepk mp) (f_pos a) (f_pos b)) fr /\
+  (* every added feature is within search_range of a feature of one of the memory+1 preceding frames *)
+  (forall a, In a fr -> f_added a = true ->
+     exists fr0 b, In fr0 (firstn (S (m_mem mp)) prev_rev) /\ In b fr0 /\ in_range (m_met mp) (f_pos b) (f_pos a)) /\
+  (* every feature lies outside the margin and has a finite mass >= minmass *)
+  (forall a, In a fr -> off_margin (m_shape mp) (m_rad mp) (f_pos a) /\
+                        exists v, f_mass a = Some v /\ (m_minmass mp <= v)%Q).
+
+Fixpoint movie_admissible (mp : mparams) (prev_rev : list (list feat)) (frames : list (list feat)) : Prop :=
+  match frames with
+  | [] => True
+  | fr :: rest => frame_admissible mp prev_rev fr /\ movie_admissible mp (fr :: prev_rev) rest
+  end.
+
+Theorem check_frame_sound mp prev_rev fr : check_frame mp prev_rev fr = 0%N -> frame_admissible mp prev_rev fr.
+Proof.
+  unfold check_frame, frame_admissible.
+  destruct (nodup_b (map f_lab fr)) eqn:E1; cbn [negb]; [|discriminate].
+  destruct (all_pairs_b _ fr) eqn:E2; cbn [negb]; [|discriminate].
+  destruct (existsb (fun a => f_added a && negb (has_source mp (firstn (S (m_mem mp)) prev_rev) a)) fr) eqn:E3; [discriminate|].
+  destruct (existsb (fun a => negb (outside_b (m_shape mp) (m_rad mp) (f_pos a))) fr) eqn:E4; [discriminate|].
+  destruct (existsb (fun a => negb (feat_mass_ok (m_minmass mp) a)) fr) eqn:E5; [discriminate|].
+  intros _. split; [apply nodup_b_sound; exact E1|]. split; [|split].
+  - apply all_pairs_b_sound in E2. eapply fop_impl; [|exact E2].
+    intros a b H. unfold far_b in H. apply Z.leb_le in H. exact H.
+  - intros a Ha Hadd. pose proof (existsb_false _ _ E3 a Ha) as H. cbn in H. rewrite Hadd in H. cbn in H.
+    apply negb_false_iff in H. unfold has_source in H. apply existsb_exists in H. destruct H as [fr0 [H0 H]].
+    apply existsb_exists in H. destruct H as [b [Hb H]]. exists fr0, b. split; [exact H0|split; [exact Hb|]].
+    unfold in_range. apply Z.leb_le. exact H.
+  - intros a Ha. split.
+    + pose proof (existsb_false _ _ E4 a Ha) as H. cbn in H. apply negb_false_iff in H. apply outside_b_sound. exact H.
+    + pose proof (existsb_false _ _ E5 a Ha) as H. cbn in H. apply negb_false_iff in H.
+      unfold feat_mass_ok in H. destruct (f_mass a) as [v|]; [|discriminate]. exists v. split; [reflexivity|].
+      apply Qle_bool_iff. exact H.
+Qed.
+
+Theorem check_frames_sound mp : forall frames prev_rev,
+  check_frames mp prev_rev frames = 0%N -> movie_admissible mp prev_rev frames.
+Proof.
+  induction frames as [|fr rest IH]; intros prev_rev H; cbn in *; [exact I|].
+  destruct (check_frame mp prev_rev fr) eqn:E; [|discriminate].
+  split; [apply check_frame_sound; exact E|apply IH; exact H].
+Qed.
+
+Theorem check_movie_sound mp frames : check_movie mp frames = 0%N -> movie_admissible mp [] frames.
+Proof. apply check_frames_sound. Qed.
+
+(* ============================ Part 4: the earlier variants are refuted *)
+(* an image that is black except for a few pixels (row, column, value) *)
+Definition spots (h w : Z) (sp : list (Z * Z * Z)) : image :=
+  {| shape := [h; w];
+     data := Node (map (fun i => Node (map (fun j =>
+               Leaf (fold_right (fun s acc => if (fst (fst s) =? i) && (snd (fst s) =? j) then snd s else acc) 0 sp))
+               (zint 0 (w - 1)))) (zint 0 (h - 1))) |}.
+
+(* F12 (pinned code: bg_radius = slice_radius + radius + 1).  separation 9,
+   diameter 5, search_range 3.5: a lost feature at (10,10), a bright pixel at
+   (10,13), a known feature at (10,20) -- 10 px from the lost one, outside the old
+   query radius 9 -- 7 px from the pixel.  The old radii accept the pixel; the
+   present ones mask it. *)
+Theorem separation_refuted_old_bg_radius :
+  let P := mk_params 2 2 7 18 2 0 true true in
+  let im := spots 24 24 [(10, 13, 100)] in
+  In ([10; 13], Some 100) (relocate_cands P im (Some (Qmake 50 1)) [[10; 10]] [[10; 20]]) /\
+  ~ far (fk P) (sepk P) [10; 13] [10; 20] /\
+  ~ bg_covers P /\
+  relocate_cands (mk_params 2 2 7 18 2 0 false true) im (Some (Qmake 50 1)) [[10; 10]] [[10; 20]] = [].
+Proof.
+  cbv zeta. split; [vm_compute; left; reflexivity|]. split; [unfold far; vm_compute; intros H; apply H; reflexivity|].
+  split; [|vm_compute; reflexivity].
+  unfold bg_covers. vm_compute. intros [_ [_ [_ H]]]. apply H. reflexivity.
+Qed.
+
+(* F16 (code before the last fix: edge rejection on slice-relative coordinates,
+   argsort(mass)[::-1][:count]).  40x40 image, separation 9 (margin 4),
+   search_range 5; lost features at (32,20) and (26,27); bright pixels at (36,20)
+   -- inside the margin, 36 > 40-4-1 -- and (26,28).  The old code returns the
+   margin pixel with NaN mass and drops the good one; the present code returns
+   the good one. *)
+Theorem margin_mass_refuted_old_edge_test :
+  let im := spots 40 40 [(36, 20, 100); (26, 28, 100)] in
+  relocate_cands (mk_params 2 1 5 9 4 0 false false) im (Some (Qmake 50 1)) [[32; 20]; [26; 27]] [] = [([36; 20], None)] /\
+  ~ off_margin (shape im) 4 [36; 20] /\
+  relocate_cands (mk_params 2 1 5 9 4 0 false true) im (Some (Qmake 50 1)) [[32; 20]; [26; 27]] [] = [([26; 28], Some 100)].
+Proof.
+  cbv zeta. split; [vm_compute; reflexivity|]. split; [|vm_compute; reflexivity].
+  unfold off_margin. intros H. inversion H; subst. cbn in *. lia.
+Qed.
+
+(* ------------------------------------------------------------ non-vacuity *)
+(* two features, both withheld in the second frame, both re-found by the model
+   at their new positions and linked to their old labels *)
+Example find_link_refinds :
+  let P := mk_params 2 1 5 9 4 0 false true in
+  let im := spots 40 40 [(33, 20, 100); (26, 28, 100)] in
+  find_link_model (fmet P) 0 30 no_pred [[32; 20]; [26; 27]] [([], image_reloc P im (Some (Qmake 50 1)))]
+  = Ok [([0; 1]%nat, [[32; 20]; [26; 27]]); ([0; 1]%nat, [[33; 20]; [26; 28]])].
+Proof. vm_compute. reflexivity. Qed.
